@@ -16,7 +16,7 @@ EXPLANATION = (
 )
 FUNCTIONS = ["CPCCA._fit_algorithm", "_compute_cross_matrix", "_compute_cross_covariance_numpy", "_normalize_data", "_compute_total_squared_covariance", "cross_correlation_coefficients", "correlation_coefficients_X/Y", "squared_covariance_fraction", "Whitener", "PCA", "Decomposer.fit"]
 BOUNDS = {"quick": {"n": 4, "p,q": "2..3", "alpha": "{0, 0.5, 1}", "k": 2}, "thorough": {"n": "4..5", "p,q": "2..3", "alpha": "{0,0.5,1}^2", "use_pca": "on/off"}}
-OUTSIDE = ["homogeneous / heterogeneous pattern significance corrections (statsmodels absent)", "|correlation| <= 1 follows from Cauchy-Schwarz once the reported value is shown to be the Gram correlation (trusted)", "p > n after PCA"]
+OUTSIDE = ["p-values and significance corrections of the homogeneous / heterogeneous patterns (scipy / statsmodels)", "|correlation| <= 1 follows from Cauchy-Schwarz once the reported value is shown to be the Gram correlation (trusted)", "p > n after PCA"]
 TRUSTED = ["SVD / inv contracts", "Cauchy-Schwarz"]
 ASSUMPTIONS = ["full rank (singular values > 1e-12)", "Gram matrices handed to the SVD are PSD"]
 
@@ -122,6 +122,37 @@ def h_scores_cov(B, cls="HilbertCCA", n=6, p=2, q=2, k=2, use_pca=True):
         B.ge(f"canonical correlation {i + 1} does not exceed one", np.ones(1), sv[i : i + 1] * (n - 1) / n)
 
 
+def h_patterns(B, cls="MCA", n=4, p=2, q=2, k=2, lagged=False):
+    """homogeneous / heterogeneous patterns (correction=None) are the Pearson correlations between each field and the score series -
+    of its own field / of the OTHER field, paired by position (a lagged analysis has different sample labels in X and Y)"""
+    import xeofs.utils.optional.statistics as st
+
+    X = da2d(B, "x", n, p, feat="x")
+    Y = da2d(B, "y", n, q, feat="y", scoords=list(range(1, n + 1)) if lagged else None)
+    model = M.cross(cls, n_modes=k, use_pca=False)
+    r = B.completes("fit runs", lambda: model.fit(X, Y, "time"))
+    if r is None:
+        return
+    Xc, Yc = _centre(X), _centre(Y)
+    S1 = model.data["scores1"].copy(deep=True).transpose("sample", "mode").data
+    S2 = model.data["scores2"].copy(deep=True).transpose("sample", "mode").data
+    saved = st._compute_pvalues
+    st._compute_pvalues = lambda corr, n_samples: corr * 0  # p-values (scipy's beta distribution) are outside the claim
+    try:
+        for meth, pairs in (("homogeneous_patterns", ((Xc, S1), (Yc, S2))), ("heterogeneous_patterns", ((Xc, S2), (Yc, S1)))):
+            B.covers(f"{cls}.{meth}", "pearson_correlation")
+            res = B.completes(f"{meth}() runs", lambda: getattr(model, meth)())
+            if res is None:
+                continue
+            (P1, P2), _ = res
+            for nm, P, fd, (Z, S) in (("X", P1, "x", pairs[0]), ("Y", P2, "y", pairs[1])):
+                Pd = P.transpose(fd, "mode").data
+                sz, ss = np.std(Z, axis=0), np.std(S, axis=0)
+                B.eq(f"{meth}: field {nm}: pattern * std(field) * std(score) * n == sum_t field_t score_t (paired by position)", Pd * sz.reshape((-1, 1)) * ss.reshape((1, -1)) * n, Z.T @ S)
+    finally:
+        st._compute_pvalues = saved
+
+
 def configs(tier):
     out = []
 
@@ -137,9 +168,12 @@ def configs(tier):
     add("h_cross", "CCA|p2q2|witness with feature scales 1 and 1e-5", cls="CCA", illcond=True, metrics=False)
     add("h_cross", "CPCCA|alpha=0.5|p2q2", cls="CPCCA", alpha=0.5)
     add("h_cross", "ComplexMCA|p2q2", cls="ComplexMCA", cplx=True)
+    add("h_patterns", "MCA|patterns|p2q2", cls="MCA")
+    add("h_patterns", "MCA|patterns|p2q2|X and Y carry different sample labels (lagged)", cls="MCA", lagged=True)
     add("h_scores_cov", "HilbertCCA|pca=1|n6 (decided at witnesses)", cls="HilbertCCA", use_pca=True)
     add("h_cross", "ComplexCCA|p2q2", cls="ComplexCCA", cplx=True, metrics=False)
     if tier == "thorough":
+        add("h_patterns", "CCA|patterns|p2q2|X and Y carry different sample labels (lagged)", cls="CCA", lagged=True)  # through T and Tinv: mostly decided at the witness
         add("h_cross", "RDA|p2q2", cls="RDA")
         add("h_cross", "CPCCA|alpha=[0.5,1.0]|p2q2", cls="CPCCA", alpha=[0.5, 1.0])
         add("h_cross", "CPCCA|alpha=[0.0,0.5]|p2q2", cls="CPCCA", alpha=[0.0, 0.5])
